@@ -11,7 +11,7 @@ from typing import Callable
 
 import onnx  # ruff: ignore[banned-api]
 
-from onnx_ir import _core, _protocols, serde
+from onnx_ir import _core, _enums, _protocols, serde
 from onnx_ir import external_data as _external_data
 from onnx_ir._polyfill import zip
 
@@ -42,6 +42,19 @@ def load(path: str | os.PathLike, format: str | None = None) -> _core.Model:
         # base directory too; without it they resolve against the current working
         # directory and are not subject to the path containment checks
         _external_data.set_base_dir(function.graph, base_dir)
+        # So do external tensors that are default values of the function's attribute parameters
+        for attr in function.attributes.values():
+            if attr.is_ref() or attr.value is None:
+                continue
+            if attr.type == _enums.AttributeType.TENSOR:
+                tensors = [attr.value]
+            elif attr.type == _enums.AttributeType.TENSORS:
+                tensors = list(attr.value)
+            else:
+                continue
+            for tensor in tensors:
+                if isinstance(tensor, _core.ExternalTensor):
+                    tensor.base_dir = base_dir
     return model
 
 
